@@ -16,6 +16,8 @@ mod wire;
 
 pub use config::{Buffers, ConfigBuilder};
 pub use mqtt_client::{ConnectEvent, Connection, InboundPublish, Io, Op, Session};
+#[cfg(minimq_verif)]
+pub use mqtt_client::{VerifEntry, VerifOutbound, VerifSnapshot};
 pub use packets::Disconnect;
 pub use properties::{Properties, Property};
 pub use publication::{OwnedResponseTarget, Publication, ToPayload};
